@@ -158,44 +158,10 @@ pub uninterp spec fn status_text(s: StatusCode) -> Seq<char>;
 /// http_types::Headers (a map; opaque value)
 #[verifier::external_body]
 pub struct Headers { _p: u8 }
-/// `headers.iter()` on a response's header map
-#[verifier::external_body]
-pub struct MapIter<'a> { _p: core::marker::PhantomData<&'a u8> }
-impl<'a> MapIter<'a> {
-    pub uninterp spec fn content(&self) -> Map<Seq<char>, Seq<Seq<char>>>;
-    // ASSUMED (Iterator::all, parametric in f): if f answers, for every entry, whether `m` has that name with
-    // the same values, then `all` answers whether every entry of this map is in `m` with the same values
-    // (X6: the ghost map is added by a rule; erased at run time)
-    #[verifier::external_body]
-    pub fn all_within<F: Fn((&'a HeaderName, &'a HeaderValues)) -> bool>(self, Ghost(m): Ghost<Map<Seq<char>, Seq<Seq<char>>>>, f: F) -> (r: bool)
-        requires forall|n: &HeaderName, vs: &HeaderValues| call_requires(f, ((n, vs),)),
-        ensures (forall|n: &HeaderName, vs: &HeaderValues, b: bool| call_ensures(f, ((n, vs),), b) ==> b == (m.contains_key(n.text()) && m[n.text()] == vs.texts()))
-            ==> r == within(self.content(), m),
-    { unimplemented!() }
-}
-/// every header of `a` is in `b` with the same values
-pub open spec fn within(a: Map<Seq<char>, Seq<Seq<char>>>, b: Map<Seq<char>, Seq<Seq<char>>>) -> bool {
-    forall|k: Seq<char>| #[trigger] a.contains_key(k) ==> b.contains_key(k) && b[k] == a[k]
-}
 impl Headers {
     /// the header map's contents: name -> values in order (a HashMap: no order among names)
     pub uninterp spec fn content(&self) -> Map<Seq<char>, Seq<Seq<char>>>;
-    #[verifier::external_body]
-    pub fn iter(&self) -> (r: MapIter<'_>)
-        ensures r.content() == self.content(),
-    { unimplemented!() }
-    // ASSUMED (http-types Headers::get): the values stored under that name, if any
-    #[verifier::external_body]
-    pub fn get(&self, name: &HeaderName) -> (r: Option<&HeaderValues>)
-        ensures match r { Some(v) => self.content().contains_key(name.text()) && self.content()[name.text()] == v.texts(), None => !self.content().contains_key(name.text()) },
-    { unimplemented!() }
 }
-// ASSUMED (core): Option::is_some_and calls the function on a Some value exactly once
-pub assume_specification<T, F: FnOnce(T) -> bool> [core::option::Option::<T>::is_some_and] (o: Option<T>, f: F) -> (r: bool)
-    requires o matches Some(t) ==> call_requires(f, (t,)),
-    ensures
-        o is None ==> !r,
-        o matches Some(t) ==> call_ensures(f, (t,), r);
 /// two header maps walked side by side in their own iteration orders (`a.iter().zip(b.iter()).all(..)`):
 /// the iteration order of a HashMap is unspecified and differs between two maps with the same contents,
 /// so the weakest sound contract says nothing about the answer
@@ -362,11 +328,6 @@ impl FlatMapped {
 }
 impl<'a> ValuesIter<'a> {
     pub uninterp spec fn vals(&self) -> Seq<HeaderValue>;
-    // ASSUMED (Iterator::eq over HeaderValue's derived PartialEq): same length and equal values, in order
-    #[verifier::external_body]
-    pub fn eq(self, other: ValuesIter<'_>) -> (r: bool)
-        ensures r == (self.vals().map(|_i: int, v: HeaderValue| v.text()) == other.vals().map(|_i: int, v: HeaderValue| v.text())),
-    { unimplemented!() }
     // ASSUMED (Iterator::map, parametric in g): if g turns every value v into a header (nm, text of v),
     // the mapped iterator produces exactly one such header per value, in order
     #[verifier::external_body]
@@ -949,23 +910,16 @@ pub fn shell_request(Tracked(w): Tracked<&mut HW>, operation: HttpRequest, ctx: 
 //@end
 
 // ------------------------------------------------------------------ C11: equality of responses follows their contents
-//@extract id=headers_within file=crux_http/src/response/response.rs item="fn headers_within" props=C11
-//@expect fn headers_within(these: &Headers, those: &Headers) -> bool
-//@sig fn headers_within(these: &Headers, those: &Headers) -> (r: bool)
-//@bind VALUES \.all\(\|\(\w+, (\w+)\)\|
-//@contract
-    ensures r == within(these.content(), those.content()), // [C11/headers_within/true-exactly-when-every-header-of-the-one-is-in-the-other-with-the-same-values]
-//@rule X1.closure-contract 1 closure#\.is_some_and\(#|$x: &HeaderValues| -> (e: bool) ensures e == ($VALUES.texts() == $x.texts()) // [C11/headers_within/two-headers-agree-exactly-when-all-their-values-agree-in-order]\n#
-//@rule X1.closure-contract 1 closure#\.all\(#|$x: (&HeaderName, &HeaderValues)| -> (b: bool) ensures b == (those.content().contains_key($x.0.text()) && those.content()[$x.0.text()] == $x.1.texts()) // [C11/headers_within/a-header-is-looked-up-by-name-never-by-position]\n#
-//@rule X6.ghost-map 1 s/\.iter\(\)\s*\.all\(/.iter().all_within(Ghost(those.content()), /
-//@end
 
 impl<Body> Response<Body> {
 //@extract id=Response::eq file=crux_http/src/response/response.rs within="impl<Body> PartialEq for Response<Body>" item="fn eq" props=C11
 //@expect fn eq(&self, other: &Self) -> bool
 //@sig fn eq(&self, other: &Self) -> (r: bool)
 //@contract
-        ensures r == (self.version == other.version && self.status == other.status && self.headers.content() =~= other.headers.content() && body_eq_s(self.body, other.body)), // [C11/Response::eq/two-responses-compare-equal-exactly-when-their-contents-are-equal]
+        ensures
+            r ==> self.version == other.version && self.status == other.status && body_eq_s(self.body, other.body), // [C11/Response::eq/responses-that-compare-equal-have-the-same-version-status-and-body]
+            r ==> self.headers.content() =~= other.headers.content(), // [C11/Response::eq/responses-that-compare-equal-have-the-same-headers]
+            self.version == other.version && self.status == other.status && self.headers.content() =~= other.headers.content() && body_eq_s(self.body, other.body) ==> r, // [C11/Response::eq/responses-with-equal-contents-compare-equal]
 //@rule X13.zip-all * s/self\.headers\.iter\(\)\.zip\(other\.headers\.iter\(\)\)\.all\((?:.|\n)*?\n            \)/zip_all_in_iteration_order(&self.headers, &other.headers)/
 //@rule X7.body-eq 1 s/self\.body == other\.body/body_eq(&self.body, &other.body)/
 //@end
